@@ -49,7 +49,113 @@ def set_cell(rows, code, col, val):
     raise KeyError(code)
 
 
+def _t_addcomp(S, code, disp, junction=False):
+    S["Compartments"].append([code, disp, "n", "n", "y" if junction else "n", 0 if junction else 1, None, None if junction else "sv"])
+    T = S["Transitions"]
+    T[0].append(code)
+    for r in T[1:]:
+        r.append(None)
+    T.append([code] + [None] * (len(T[0]) - 1))
+
+
+def _t_link(S, a, b, p):
+    T = S["Transitions"]
+    j = T[0].index(b)
+    for r in T[1:]:
+        if r[0] == a:
+            r[j] = p
+
+
+def _t_addpar(S, code, disp, fmt, default, timed="n"):
+    hdr = S["Parameters"][0]
+    row = [None] * len(hdr)
+    for k, v in (("Code Name", code), ("Display Name", disp), ("Format", fmt), ("Timescale", 1 if fmt in ("rate", "probability", "number", "duration") else None), ("Default Value", default),
+                 ("Minimum Value", 0), ("Databook Page", "pa"), ("Targetable", "n"), ("Timed", timed)):
+        row[hdr.index(k)] = v
+    S["Parameters"].append(row)
+
+
+def timed_framework(S, m):
+    """Base 'sirt' of MCValidate.tla (sirj whose immunity lasts for the timed duration `wane`) with timed-structure mutation m."""
+    S = copy.deepcopy(S)
+    S["Parameters"][0].append("Timed")
+    for r in S["Parameters"][1:]:
+        r.append("y" if r[0] == "wane" else "n")
+    hdr = S["Parameters"][0]
+
+    def group2():
+        _t_addcomp(S, "rcv2", "Recovered late")
+        _t_link(S, "rcv2", "sus", "wane")
+        _t_link(S, "rcv2", "dead", "mort")
+
+    def junction():
+        group2()
+        _t_addcomp(S, "jt", "Timed junction", True)
+        _t_addpar(S, "mv", "Move rate", "rate", 0.3)
+        _t_addpar(S, "one", "All of them", "proportion", 1.0)
+        _t_link(S, "rcv", "jt", "mv")
+        _t_link(S, "jt", "rcv2", "one")
+
+    if m == "t_none":
+        pass
+    elif m == "t_timed_rate":
+        set_cell(S["Parameters"], "rec", "Timed", "y")
+    elif m == "t_timed_targetable":
+        set_cell(S["Parameters"], "wane", "Targetable", "y")
+    elif m == "t_two_timed_outflows":
+        _t_addpar(S, "wane2", "Second duration", "duration", 3, "y")
+        _t_link(S, "rcv", "inf", "wane2")
+    elif m == "t_timed_from_junction":
+        _t_addpar(S, "dj", "Junction duration", "duration", 1, "y")
+        _t_link(S, "jn", "sus", "dj")
+    elif m == "t_timed_from_source":
+        _t_addpar(S, "dj", "Source duration", "duration", 1, "y")
+        _t_link(S, "src", "inf", "dj")
+    elif m == "t_group_two_comps":
+        group2()
+        _t_addpar(S, "mv", "Move rate", "rate", 0.3)
+        _t_link(S, "rcv", "rcv2", "mv")
+    elif m == "t_flush_into_own_group_a":  # the flushing compartment comes first in the matrix
+        group2()
+        _t_link(S, "rcv", "sus", None)
+        _t_link(S, "rcv", "rcv2", "wane")
+    elif m == "t_flush_into_own_group_b":  # the flushing compartment comes last
+        group2()
+        _t_addpar(S, "mv", "Move rate", "rate", 0.3)
+        _t_link(S, "rcv", "rcv2", "mv")
+        _t_link(S, "rcv2", "sus", None)
+        _t_link(S, "rcv2", "rcv", "wane")
+    elif m == "t_junction_in_group":
+        junction()
+    elif m == "t_junction_mixed_inflows":
+        junction()
+        _t_addpar(S, "mv2", "Other move", "rate", 0.1)
+        _t_link(S, "inf", "jt", "mv2")
+    elif m == "t_junction_mixed_outflows":
+        junction()
+        _t_addpar(S, "two", "Some of them", "proportion", 0.4)
+        _t_link(S, "jt", "sus", "two")
+    elif m == "t_junction_flush_back":
+        group2()
+        _t_addcomp(S, "jt", "Timed junction", True)
+        _t_addpar(S, "one", "All of them", "proportion", 1.0)
+        _t_link(S, "rcv", "sus", None)
+        _t_link(S, "rcv", "jt", "wane")
+        _t_link(S, "jt", "rcv2", "one")
+    elif m == "t_junction_flush_out":
+        _t_addcomp(S, "jt", "Timed junction", True)
+        _t_addpar(S, "one", "All of them", "proportion", 1.0)
+        _t_link(S, "rcv", "sus", None)
+        _t_link(S, "rcv", "jt", "wane")
+        _t_link(S, "jt", "sus", "one")
+    else:
+        raise KeyError(m)
+    return S
+
+
 def mutate_framework(S, m):
+    if m.startswith("t_"):
+        return timed_framework(S, m)
     S = copy.deepcopy(S)
     if m in ("none", "blank_optional_column") or m.startswith("databook_") or m.startswith("progbook_"):
         if m == "blank_optional_column":
@@ -558,8 +664,8 @@ def try_case(at, S0, m):
         for pop, ts in tdve.ts.items():
             if name == "alive":
                 ts.insert(2000.0, 1000.0)
-            elif name in ("sus", "inf", "rcv"):
-                ts.insert(2000.0, {"sus": 900.0, "inf": 100.0, "rcv": 0.0}[name])
+            elif name in ("sus", "inf", "rcv", "rcv2"):
+                ts.insert(2000.0, {"sus": 900.0, "inf": 100.0, "rcv": 0.0, "rcv2": 0.0}[name])
             elif not ts.has_data:
                 ts.assumption = {"birth": 10.0, "beta": 0.5, "rec": 0.5, "split1": 0.9, "split2": 0.1, "wane": 5.0, "mort": 0.02}.get(name, 1.0)
     if m.startswith("databook_"):
@@ -621,7 +727,7 @@ def run(prop, tier):
         libs["lib_" + name] = (name, lb[1], lb[2])
         defs += "L_%s == %s\n" % (name, lb[0])
     if libs:
-        mc = mc.replace("MCBases == <<B1>>", defs + "MCBases == <<B1, %s>>" % ", ".join("L_%s" % n for n, _, _ in libs.values()))
+        mc = mc.replace("MCBases == <<B1, B2>>", defs + "MCBases == <<B1, B2, %s>>" % ", ".join("L_%s" % n for n, _, _ in libs.values()))
     r, pairs = C.enumerate_cases(["Validate", "MCValidate"], "MCValidate", cfg, timeout=600, generated={"MCValidate.tla": mc})
     cov = dict(states=r.distinct, transitions=r.generated, traces_validated_against_impl=0, samples=[], exhaustive=True, pairs=len(pairs))
     S0 = base_sheets()
